@@ -21,7 +21,7 @@ func init() {
 			"Roland checksum rule: (sum of address + payload/size bytes + checksum) mod 128 == 0",
 			"ids and addresses are 7-bit values (sysex data bytes)",
 		},
-		Require: []string{"dataset_values", "request_values", "corruptions_rejected", "checksum_nonzero", "locate_values", "command_values", "held_across_later_build", "reparse_after_modification", "reused_receivers"},
+		Require: []string{"dataset_values", "request_values", "corruptions_rejected", "checksum_nonzero", "locate_values", "command_values", "held_across_later_build", "reparse_after_modification", "reused_receivers", "dump_packets_built"},
 		Run:     runC18,
 	})
 }
@@ -156,6 +156,58 @@ func runC18(c *mon.Ctx) {
 			c.Sample("roland", map[string]any{"value": short(m), "bytes": mon.Hex(bt)})
 		}
 		prevBt, prevCopy, prevDesc = bt, append([]byte(nil), bt...), short(m)
+	})
+
+	// a bulk dump sent in packets: the payloads of the values are adjacent windows of one caller-owned buffer
+	// (so every payload slice has spare capacity that belongs to the next value). All values are defined
+	// first (expectations copied), then built one after the other; each must still parse back to what it
+	// was defined as.
+	c.Each("dump-packets", c.N(600, 20_000), func(i int64, r *mon.Rand) {
+		psize := r.Pick(1, 2, 3, 4, 16, 64, 128, 128, 256)
+		npk := r.Range(2, 6)
+		dump := r.Bytes7(psize*npk + r.Intn(8))
+		want := append([]byte(nil), dump...)
+		vals := make([]sysex.Manufacturer, npk)
+		for k := range vals {
+			vals[k].ManufacturerID = sysex.ManufacturerID(r.Byte() & 0x7F)
+			vals[k].DeviceID = r.Byte() & 0x7F
+			vals[k].ModelID = r.Byte() & 0x7F
+			copy(vals[k].Address[:], r.Bytes7(3))
+			vals[k].SendingData = dump[k*psize : (k+1)*psize]
+		}
+		order := r.Perm(npk)
+		if i%2 == 0 {
+			for k := range order {
+				order[k] = k
+			}
+		}
+		in := map[string]any{"dump": mon.Hex(head(want, 80)), "packet_size": psize, "packets": npk, "build_order": order}
+		for _, k := range order {
+			var bt []byte
+			if c.Guard("panic:SysEx", in, func() { bt = vals[k].SysEx() }) {
+				return
+			}
+			c.Count("dump_packets_built", 1)
+			wantData := want[k*psize : (k+1)*psize]
+			p, err := sysex.Parse(bt)
+			if err != nil {
+				c.Violation("parse-rejects-built", fmt.Sprintf("packet %d of a dump built from windows of one buffer does not parse: %v; bytes %s", k, err, mon.Hex(head(bt, 60))), in, "value", err.Error())
+				return
+			}
+			if p.Address != vals[k].Address || !bytes.Equal(p.SendingData, wantData) {
+				c.Violation("parse-differs", fmt.Sprintf("packet %d (payload = bytes %d..%d of the caller's dump buffer, defined before any packet was built) parses back to payload %s, defined as %s", k, k*psize, (k+1)*psize, mon.Hex(head(p.SendingData, 24)), mon.Hex(head(wantData, 24))), in, mon.Hex(head(wantData, 40)), mon.Hex(head(p.SendingData, 40)))
+				return
+			}
+			sum := 0
+			for _, b := range bt[5 : len(bt)-1] {
+				sum += int(b)
+			}
+			if sum%128 != 0 {
+				c.Violation("checksum-rule", fmt.Sprintf("address+body+checksum of packet %d sums to %d mod 128", k, sum%128), in, 0, sum%128)
+				return
+			}
+		}
+		c.DistinctBytes(want, []byte(fmt.Sprint(psize, order)))
 	})
 
 	// the library's own documented example must parse
